@@ -181,3 +181,113 @@ Proof.
              all: try (rewrite (tips_node n (Some lc) _ Hne2), (tips_node n (Some lc) cs' Hne); exact Ht). }
            rewrite Hs. reflexivity.
 Qed.
+
+Lemma gst_inv_Forall dflt S cs : Forall (gst_inv dflt S) cs.
+Proof. apply Forall_forall. intros c _. apply gst_inv_all. Qed.
+
+(** general form: when the root is merged into its only surviving child
+    ([keep_root = false]) the dropped root-side edges separate the subtree from
+    names that are not in the tree at all, so [a] and [b] must be on the same
+    side ("both in the tree" in practice) *)
+Lemma sub_tree_core_gen dflt t S im kr r a b :
+  pos_lens t = true ->
+  get_sub_tree_core t S im kr true = Ok r ->
+  memb a S = true -> memb b S = true ->
+  (kr = true \/ memb a (tips t) = memb b (tips t)) ->
+  tips r = filter (fun n => memb n S) (tips t) /\
+  pathlen dflt r a b = pathlen dflt t a b /\
+  pos_lens r = true.
+Proof.
+  intros Hp Hg Ha Hb Hside. unfold get_sub_tree_core in Hg.
+  destruct (negb im && negb (forallb (fun n => memb n (node_names true t)) S)); [discriminate|].
+  destruct (gst_top S true kr t) as [r0|] eqn:Et; [|discriminate].
+  destruct (is_tip r0) eqn:Etip; [discriminate|].
+  injection Hg as <-. unfold gst_top in Et.
+  destruct (selected S true t) eqn:Esel.
+  { injection Et as <-. unfold selected in Esel. cbn [negb orb] in Esel.
+    apply andb_true_iff in Esel. destruct Esel as [_ Esel]. congruence. }
+  clear Esel. destruct t as [n l cs]. cbn [kids tname tlen] in Et.
+  destruct cs as [|c0 cs]; [discriminate|].
+  set (cs' := c0 :: cs) in *.
+  assert (Hne : cs' <> []) by (subst cs'; congruence).
+  rewrite pos_lens_node in Hp.
+  destruct (gst_kids_inv dflt S cs' (gst_inv_Forall dflt S cs') Hp) as (Ht & Hgk & Hck).
+  rewrite (tips_node n l cs' Hne).
+  destruct (gst_kids S true cs') as [|x [|y sub]] eqn:Ek; [discriminate| |].
+  - rewrite tips_of_cons in Ht. cbn [tips_of flat_map] in Ht. rewrite app_nil_r in Ht.
+    destruct kr.
+    + injection Et as <-. unfold set_name. cbn [tlen kids].
+      split; [|split].
+      * cbn [tips flat_map]. rewrite app_nil_r. exact Ht.
+      * rewrite !pathlen_node. apply Hck; assumption.
+      * rewrite pos_lens_node. exact Hgk.
+    + injection Et as <-. unfold set_name. cbn [tlen kids]. cbn [is_tip kids] in Etip.
+      destruct x as [nx lx kx]. cbn [kids tname tlen] in *.
+      destruct kx as [|k0 kx]; [discriminate|].
+      split; [|split].
+      * rewrite <- Ht. reflexivity.
+      * rewrite !pathlen_node. rewrite <- (Hck a b Ha Hb).
+        cbn [contribs map zsum fold_right]. rewrite contrib_node.
+        destruct Hside as [Hk|Hside]; [discriminate|].
+        rewrite (tips_node n l cs' Hne) in Hside.
+        assert (Hs : sep (Node nx lx (k0 :: kx)) a b = false).
+        { unfold sep. rewrite Ht, !memb_filter, Hside by assumption. apply xorb_nilpotent. }
+        rewrite Hs. lia.
+      * cbn [forallb] in Hgk. rewrite andb_true_r in Hgk. unfold good in Hgk.
+        apply andb_true_iff in Hgk. destruct Hgk as [_ Hgk].
+        rewrite pos_lens_node in *. exact Hgk.
+  - assert (Hr : r0 = Node n l (x :: y :: sub)) by (destruct kr; congruence).
+    subst r0. unfold set_name. cbn [tlen kids].
+    split; [|split].
+    + exact Ht.
+    + rewrite !pathlen_node. apply Hck; assumption.
+    + rewrite pos_lens_node. exact Hgk.
+Qed.
+
+(** The statement with only [In a S], [In b S] is false for
+    [ignore_missing = true], [keep_root = false]: with
+    t = root(X:1(A:1,B:1)), S = [A;B;Z], the result is root(A:1,B:1) and
+    pathlen t A Z = 2 but pathlen r A Z = 1.  Hence the two extra hypotheses. *)
+Theorem sub_tree_core_preserves : forall dflt t S im kr r a b,
+  pos_lens t = true ->
+  get_sub_tree_core t S im kr true = Ok r ->
+  In a S -> In b S -> In a (tips t) -> In b (tips t) ->
+  tips r = filter (fun n => memb n S) (tips t) /\
+  pathlen dflt r a b = pathlen dflt t a b /\
+  pos_lens r = true.
+Proof.
+  intros dflt t S im kr r a b Hp Hg Ha Hb Hat Hbt.
+  apply memb_In in Ha, Hb, Hat, Hbt.
+  eapply sub_tree_core_gen; try eassumption. right. congruence.
+Qed.
+
+Theorem sub_tree_core_preserves_keep_root : forall dflt t S im r a b,
+  pos_lens t = true ->
+  get_sub_tree_core t S im true true = Ok r ->
+  In a S -> In b S ->
+  tips r = filter (fun n => memb n S) (tips t) /\
+  pathlen dflt r a b = pathlen dflt t a b /\
+  pos_lens r = true.
+Proof.
+  intros dflt t S im r a b Hp Hg Ha Hb.
+  apply memb_In in Ha, Hb.
+  eapply sub_tree_core_gen; try eassumption. left. reflexivity.
+Qed.
+
+Theorem sub_tree_core_preserves_strict : forall dflt t S kr r a b,
+  pos_lens t = true ->
+  get_sub_tree_core t S false kr true = Ok r ->
+  In a S -> In b S ->
+  tips r = filter (fun n => memb n S) (tips t) /\
+  pathlen dflt r a b = pathlen dflt t a b /\
+  pos_lens r = true.
+Proof.
+  intros dflt t S kr r a b Hp Hg Ha Hb.
+  assert (Hall : forallb (fun n => memb n (tips t)) S = true).
+  { unfold get_sub_tree_core in Hg. cbn [negb andb node_names] in Hg.
+    destruct (forallb (fun n => memb n (tips t)) S); [reflexivity|discriminate]. }
+  rewrite forallb_forall in Hall.
+  pose proof (Hall a Ha) as Hat. pose proof (Hall b Hb) as Hbt.
+  apply memb_In in Ha, Hb.
+  eapply sub_tree_core_gen; try eassumption. right. congruence.
+Qed.
